@@ -76,6 +76,9 @@ def search(ctx, broken, corr_broken):
     LAST_SEARCH_CANDIDATES = n
     out = [{"key": k, "what": what, "replay": {"kind": "oracle", "function": sfx, "payload": str(x)}} for k, what, sfx, x in hits]
     if not out:
+        out, n3 = _repeat_probe(ctx)
+        LAST_SEARCH_CANDIDATES = n + n3
+    if not out:
         # "a returned message names that definition" / "returns a message instead of failing": the wrong (or no) definition for a payload,
         # also through a live decoder that has seen other payloads of the PGN (matching or not)
         import importlib
@@ -84,6 +87,52 @@ def search(ctx, broken, corr_broken):
             out.append({"key": v["key"].replace("C08/", "C01/", 1), "what": v["what"], "replay": v["replay"]})
         LAST_SEARCH_CANDIDATES = n + (getattr(c8, "LAST_SEARCH_CANDIDATES", 0) or 0)
     return out
+
+
+def _repeat_probe(ctx):
+    """one long-lived decoder per configuration, every payload twice from the same source: what is reported comes from the bits of the payload —
+    the second decoding equals the first, equals what a fresh decoder reports, and a message handed out earlier does not change afterwards"""
+    import random
+    harness.load_repo()
+    from nmea2000.decoder import NMEA2000Decoder
+    from nmea2000.consts import PhysicalQuantities as PQ
+    db = pgncorr.Db(common.REPO)
+    rnd = random.Random(ctx["seed"] + 12)
+    prefs = {PQ.TEMPERATURE: "C", PQ.SPEED: "kts", PQ.PRESSURE: "bar", PQ.ANGLE: "deg"}
+    n = 0
+
+    def view(m):
+        return None if m is None else [(f.id, repr(f.value), f.unit_of_measurement) for f in m.fields]
+    for cfg_name, kw in (("default", {}), ("preferred units", {"preferred_units": prefs})):
+        d = NMEA2000Decoder(**kw)
+        for sfx, p in db.defs.items():
+            if not all("BitOffset" in f and "BitLength" in f for f in p["Fields"]):
+                continue
+            for x in pgncorr.payloads_for(p, rnd, True, 1)[:3]:
+                nb = max(1, (p.get("Length") or (x.bit_length() + 7) // 8))
+                data = (x & ((1 << (8 * nb)) - 1)).to_bytes(nb, "little")[::-1]
+                try:
+                    ref = view(NMEA2000Decoder(**kw)._decode(p["PGN"], 3, 1, 255, None, data, b"", True))
+                except Exception:
+                    continue
+                if ref is None:
+                    continue
+                n += 1
+                try:
+                    m1 = d._decode(p["PGN"], 3, 1, 255, None, data, b"", True)
+                    v1 = view(m1)
+                    v2 = view(d._decode(p["PGN"], 3, 1, 255, None, data, b"", True))
+                    v3 = view(d._decode(p["PGN"], 3, 1, 255, None, data, b"", True))
+                    v1_after = view(m1)
+                except Exception as e:
+                    v1 = v2 = v3 = v1_after = f"raised {type(e).__name__}"
+                if not (v1 == v2 == v3 == ref == v1_after):
+                    bad = next((k for k, (a, b) in enumerate(zip(ref, v3 if isinstance(v3, list) else ref)) if a != b), None) if isinstance(v3, list) else None
+                    return [{"key": f"C01/repeated-payload/{sfx}", "what": f"{sfx} ({cfg_name}): the same payload decoded three times by one decoder gives "
+                             f"{(ref[bad], v2[bad], v3[bad]) if bad is not None and isinstance(v2, list) else (v1 == ref, v2 == ref, v3 == ref, v1_after == ref)} "
+                             f"(fresh decoder / second / third time; or which of first, second, third, first-afterwards equal the fresh decoder's)",
+                             "replay": {"kind": "repeat", "function": sfx, "payload": str(x), "prefs": cfg_name != "default"}}], n
+    return [], n
 
 
 def standing_search(ctx):
@@ -95,6 +144,9 @@ def replay(rp):
     if rp.get("kind") in ("selection", "selection-live"):
         import importlib
         return importlib.import_module("props.C08").replay(rp)
+    if rp.get("kind") == "repeat":
+        h, _ = _repeat_probe({"seed": rp.get("seed", 0)})
+        return not h, (h[0]["what"] if h else "holds now")
     if rp.get("kind") != "oracle":
         return False, "not an input replay: " + str(rp.get("broken_theorems") or rp.get("broken_correspondence"))[:500]
     harness.load_repo()
